@@ -124,6 +124,9 @@ def member(value_desc, t) -> bool | None:
     if isinstance(t, UninhabitedType):
         return False
     if isinstance(t, LiteralType):
+        if t.is_enum_literal():
+            r = member(value_desc, t.fallback)
+            return r if r is not True else value_desc.get("enum") == t.value
         if kind not in ("i", "b", "s"):
             return False
         if isinstance(t.value, bool) != (kind == "b"):
@@ -148,6 +151,11 @@ def member(value_desc, t) -> bool | None:
         mro = value_desc.get("mro", [])
         if t.type.is_protocol:
             return None
+        if t.type.is_intersection:
+            rs = [member(value_desc, b) for b in t.type.bases]
+            if any(r is False for r in rs):
+                return False
+            return True if all(r is True for r in rs) else None
         if fn == "builtins.object":
             return True
         if fn == "builtins.float" and kind in ("i", "b", "f"):
